@@ -12,6 +12,7 @@ Inductive vspec :=
 | SStats1 (interp : bool) (accs : list accreq) (fs gs : list bytes)
 | SStats1W (interp : bool) (accs : list accreq) (fs gs : list bytes) (n : nat)
 | SAcc (interp : bool) (a : accname) (vs : list val)      (* a DSL statistics function on an array of numbers *)
+| SPctls (interp : bool) (ps : list Q) (vs : list val)    (* percentiles(xs, [p...]) on one array: sorted once *)
 | SFraction (fs gs : list bytes) (pct cumu : bool)
 | SStep (sps : list stepreq) (fs gs : list bytes)
 | SMergeFields (interp keep : bool) (accs : list accreq) (mode : mfmode) (base : bytes)
@@ -29,6 +30,8 @@ Definition run_spec (v : vspec) (rs : list record) : list orec :=
   | SStats1 i accs fs gs => verb_stats1 i accs fs gs rs
   | SStats1W i accs fs gs n => verb_stats1_w i accs fs gs n rs
   | SAcc i a vs => [[(B "r", run_acc i a vs)]]
+  | SPctls i ps vs => let d := sort_vals vs in
+                      [map (fun p => (B "p", match d with [] => OVoid | _ => if i then pctl_interp p d else pctl_nonint p d end)) ps]
   | SFraction fs gs p c => verb_fraction fs gs p c rs
   | SStep sps fs gs => verb_step sps fs gs rs
   | SMergeFields i k accs mode base => verb_merge_fields i k accs mode base rs
